@@ -37,6 +37,7 @@ type Engine struct {
 	prop   string
 	tier   string
 	notes  map[string]bool
+	contractErrs map[string]string
 }
 
 func goEnv() []string {
@@ -147,18 +148,22 @@ func (e *Engine) LoadSpec(dir string) error {
 		return err
 	}
 	e.spec = sp
-	// every contract must name an existing function
+	// every contract must name an existing function and existing loops.  A mismatch means the code under
+	// contract changed shape: the obligations of that function can no longer be generated, which is reported by
+	// the checks whose closure contains the function (as an undischarged obligation), not as a tool failure.
+	e.contractErrs = map[string]string{}
 	for k, c := range e.cs.Funcs {
 		if c.External {
 			continue
 		}
 		fi, ok := e.funcs[k]
 		if !ok {
-			return fmt.Errorf("%s: contract names function %s which does not exist in the working tree", c.Pos, k)
+			e.contractErrs[k] = fmt.Sprintf("%s: contract names function %s which does not exist in the working tree", c.Pos, k)
+			continue
 		}
 		for n := range c.Loops {
 			if n < 0 || n > fi.NLoops {
-				return fmt.Errorf("%s: contract of %s names loop %d but the function has %d loops", c.Pos, k, n, fi.NLoops)
+				e.contractErrs[k] = fmt.Sprintf("%s: contract of %s names loop %d but the function has %d loops", c.Pos, k, n, fi.NLoops)
 			}
 		}
 	}
